@@ -160,7 +160,7 @@ claim("C04", "model_checking",
       "unpackers with packets made (and re-sealed) by the real packers, each behaviour twice (with and without the bad deliveries).",
       "TLC depth 6 only for sizes 1,2,63,64 (depth 5 for 65..1000; depth 6 for all sizes is enumerated on the real filter); ids near 2^64 by "
       "translation; the one-minute guard is a literal in the code and a spec constant; relay eviction is played by the driver.",
-      "TLA+ specs + TLC exhaustive model checking; graph replay and bounded-exhaustive enumeration on the real filter and unpackers under a virtual clock",
+      "TLA+ specs + TLC exhaustive model checking; graph replay and bounded-exhaustive enumeration on the real filter and unpackers under a virtual clock; thorough: Apalache inductive invariant (unbounded counters) for the window filter",
       "DESIGN.md 4/C04", "udpreplay")
 claim("C14", "model_checking",
       "specs/Stats/Collector.tla has one action per atomic add / swap / lock section of stats/collector.go and the api/ssm projections; TLC checks "
